@@ -51,6 +51,21 @@ def main(tier):
             dis.append({"p": texts[k // n], "q": texts[k % n], "model": o, "implementation": e})
     chk.add_corr("imp/all-pairs", len(reqs), dis)
     chk.evaluations += len(reqs)
+    # the same questions again, in reverse order, on the same objects: implies is a function of its two arguments
+    adis, an = [], 0
+    for k in reversed(range(0, n * n, 7)):
+        i, j = divmod(k, n)
+        try:
+            r = "T" if implies(objs[i], objs[j]) else "F"
+        except Exception as e:  # noqa: BLE001
+            r = f"RAISED {type(e).__name__}"
+        an += 1
+        if r != expect[k]:
+            adis.append({"p": texts[i], "q": texts[j], "first_time": expect[k], "second_time": r})
+    chk.add_corr("imp/again-in-reverse-order", an, adis)
+    chk.evaluations += an
+    for d in adis[:5]:
+        chk.add_failure(f"implies({d['p']}, {d['q']})  [asked a second time, after the other pairs]", {"what": "implies answers differently the second time", **d}, None)
     # print-alike block: the same atom pairs over 9, 10 and then over "9", "10" (same repr, "10" < "9")
     pa = []
     for sort in ("num", "str"):
